@@ -194,6 +194,16 @@ fn gen_hist(rng: &mut Rng) -> String {
     s
 }
 
+/// FNV-1a over the bytes of a dump: the digests are compared on the Lean side
+fn fnv(s: &str) -> u64 {
+    let mut h: u64 = 0xcbf29ce484222325;
+    for b in s.bytes() {
+        h ^= b as u64;
+        h = h.wrapping_mul(0x100000001b3);
+    }
+    h
+}
+
 fn im_str(m: geo::algorithm::relate::IntersectionMatrix) -> String {
     let s = format!("{:?}", m);
     s.trim_start_matches("IntersectionMatrix(").trim_end_matches(')').to_string()
@@ -228,6 +238,22 @@ pub fn eval(op: &str, t: &mut Toks) -> R<String> {
                         borrowed[idx] = Some(PreparedGeometry::from(&gs[idx]));
                     }
                 }
+                // digest of the caches of the prepared operands of this call (hook `prepared_cache_dump`)
+                macro_rules! caches {
+                    () => {{
+                        let mut d = String::new();
+                        for (idx, m) in [(i, &mi), (j, &mj)] {
+                            match m.as_str() {
+                                "o" => d.push_str(&verif::prepared_cache_dump(owned[idx].as_ref().unwrap())),
+                                "b" => d.push_str(&verif::prepared_cache_dump(borrowed[idx].as_ref().unwrap())),
+                                _ => {}
+                            }
+                            d.push(';');
+                        }
+                        fnv(&d)
+                    }};
+                }
+                let cache_before = catch_unwind(AssertUnwindSafe(|| caches!()));
                 let r = catch_unwind(AssertUnwindSafe(|| {
                     macro_rules! rhs {
                         ($a:expr) => {
@@ -256,6 +282,33 @@ pub fn eval(op: &str, t: &mut Toks) -> R<String> {
                 match catch_unwind(AssertUnwindSafe(|| gs[i].relate(&gs[j]))) {
                     Ok(m) => out.push_str(&im_str(m)),
                     Err(_) => out.push_str("panic"),
+                }
+                // the caches after the call, against before it
+                let cache_after = catch_unwind(AssertUnwindSafe(|| caches!()));
+                match (cache_before, cache_after) {
+                    (Ok(a), Ok(b)) => out.push_str(&format!(" {:016x}:{:016x}", a, b)),
+                    _ => out.push_str(" panic:panic"),
+                }
+                // what the (by now reused) prepared operands hand out for their positions, against the
+                // freshly built and self-noded graphs of the plain geometries for the same positions
+                let clone_vs_fresh = catch_unwind(AssertUnwindSafe(|| {
+                    let mut cl = String::new();
+                    let mut fr = String::new();
+                    for (pos, (idx, m)) in [(i, &mi), (j, &mj)].into_iter().enumerate() {
+                        match m.as_str() {
+                            "o" => cl.push_str(&verif::prepared_graph_dump(owned[idx].as_ref().unwrap(), pos)),
+                            "b" => cl.push_str(&verif::prepared_graph_dump(borrowed[idx].as_ref().unwrap(), pos)),
+                            _ => continue,
+                        }
+                        fr.push_str(&verif::graph_dump_noded(&gs[idx], pos));
+                        cl.push(';');
+                        fr.push(';');
+                    }
+                    (fnv(&cl), fnv(&fr))
+                }));
+                match clone_vs_fresh {
+                    Ok((a, b)) => out.push_str(&format!(" {:016x}:{:016x}", a, b)),
+                    Err(_) => out.push_str(" panic:panic"),
                 }
             }
             Ok(out)
